@@ -189,6 +189,48 @@ Proof.
   apply (twin_eqb_denote A s alg Hc Ha Hrw). apply (not_differing_eqb ms); assumption.
 Qed.
 
+(* ---------- the method-level form: normalisation is only assumed sound on methods whose eliminated
+   temporaries occur nowhere else (checked by the kernel for every twin) ---------- *)
+Lemma norm_sound_from_local :
+  forall (A : Type) (s : tree -> A) (alg : N -> list A -> A),
+    compositional s alg -> seq_rewrites_sound s alg -> norm_sound_on_scoped s.
+Proof. intros A s alg Hc Hrw m _. apply (norm_preserves A s alg Hc Hrw). Qed.
+
+Theorem canon_preserves_scoped :
+  forall (A : Type) (s : tree -> A) (alg : N -> list A -> A),
+    compositional s alg -> await_transparent alg -> norm_sound_on_scoped s ->
+    forall t, temps_scoped (erase t) = true -> s (canon t) = s t.
+Proof.
+  intros A s alg Hc Ha Hn t Hs. unfold canon. rewrite (Hn (erase t) Hs). apply (erase_preserves A s alg Hc Ha).
+Qed.
+
+Lemma unscoped_nil_scoped : forall ms, unscoped_temps ms = [] ->
+  forall m, In m ms -> temps_scoped (erase (m_async m)) = true /\ temps_scoped (erase (m_sync m)) = true.
+Proof.
+  intros ms H m Hin. unfold unscoped_temps in H. apply map_eq_nil in H.
+  destruct (temps_scoped (erase (m_async m)) && temps_scoped (erase (m_sync m))) eqn:E.
+  - apply andb_true_iff in E. exact E.
+  - exfalso.
+    assert (Hin' : In m (filter (fun m => negb (temps_scoped (erase (m_async m)) && temps_scoped (erase (m_sync m)))) ms)).
+    { apply filter_In. split; auto. rewrite E. reflexivity. }
+    rewrite H in Hin'. inversion Hin'.
+Qed.
+
+Theorem twins_denote_equal_scoped :
+  forall (ms : list method) (exceptions : list string),
+    differing ms = exceptions -> unscoped_temps ms = [] ->
+  forall (A : Type) (s : tree -> A) (alg : N -> list A -> A),
+    compositional s alg -> await_transparent alg -> norm_sound_on_scoped s ->
+    forall m, In m ms -> ~ In (m_name m) exceptions -> s (m_async m) = s (m_sync m).
+Proof.
+  intros ms ex Hd Hu A s alg Hc Ha Hn m Hin Hnot. subst ex.
+  destruct (unscoped_nil_scoped ms Hu m Hin) as [Hsa Hss].
+  assert (He : twin_eqb m = true) by (apply (not_differing_eqb ms); assumption).
+  unfold twin_eqb in He. apply tree_eqb_eq in He.
+  rewrite <- (canon_preserves_scoped A s alg Hc Ha Hn (m_async m) Hsa).
+  rewrite <- (canon_preserves_scoped A s alg Hc Ha Hn (m_sync m) Hss). congruence.
+Qed.
+
 (* the discipline, per tree *)
 Lemma discipline_all_ok :
   forall shared async_only core_inherited iface,
